@@ -96,6 +96,46 @@ def build():
     if len(iap_init) != 1:
         raise leaf.LeafError("saturation_index: expected exactly one `*iap = ...`")
     leaves.append(deref_leaf(fsi, "ro_iap_init", iap_init[0], []))
+    # ---- convergence test of the ionic-strength row: residuals() and check_residuals(), default tolerance
+    MU = "x[i]->type == 14"          # `#define MU 14` (global_structures.h), expanded by the preprocessor
+    fr = leaf.load_function(os.path.join(P, "model.cpp"), "residuals")
+    cand = [s for s in fr.sites if s.lhs == "residual[i]" and s.kind == "assign" and s.conds and s.conds[-1] == ("if", MU)]
+    if len(cand) != 1:
+        raise leaf.LeafError("residuals: expected exactly one assignment to residual[i] directly under `if (x[i]->type == MU)`, found %d" % len(cand))
+    tr = leaf._Translator(fr, ["mass_water_aq_x", "mu_x", "x[i]->f"], {}, {}, False)
+    leaves.append(leaf.Leaf("res_mu", tr.tr(cand[0].node), tr.vars, [c for t, c in cand[0].conds if t == "if"][-1:], [], fr, cand[0]))
+    fc = leaf.load_function(os.path.join(P, "model.cpp"), "check_residuals")
+    guards = []
+
+    def walk(n, under_mu):
+        if not isinstance(n, dict):
+            return
+        if n.get("kind") == "IfStmt":
+            inner = n.get("inner", [])
+            c = leaf.render(inner[0])
+            if under_mu:
+                guards.append(inner[0])
+                return
+            if c == MU and len(inner) > 1:
+                walk(inner[1], True)
+                for x in inner[2:]:
+                    walk(x, False)
+                return
+        for x in n.get("inner", []) or []:
+            walk(x, under_mu)
+    walk(fc.decl, False)
+    if len(guards) != 1:
+        raise leaf.LeafError("check_residuals: expected exactly one guard under `if (x[i]->type == MU)`, found %d" % len(guards))
+    g = leaf._strip(guards[0])
+    if g.get("kind") != "BinaryOperator" or g.get("opcode") not in (">=", ">"):
+        raise leaf.LeafError("check_residuals: MU guard is not a `>=` / `>` comparison: " + leaf.render(g))
+    gv = ["residual[i]", "epsilon", "mu_x", "mass_water_aq_x"]
+    for nm, side in (("cr_mu_lhs", g["inner"][0]), ("cr_mu_rhs", g["inner"][1])):
+        tr = leaf._Translator(fc, list(gv), {}, {}, False)
+        leaves.append(leaf.Leaf(nm, tr.tr(side), tr.vars, [MU], [], fc, leaf.Site("guard", nm, side, frozenset(), (("if", MU),), 0, None, None, None)))
+    extra += "Definition cr_mu_op : string := %s.\n" % cs(g.get("opcode"))
+    leaves.append(fc.leaf("cr_epsilon", lhs="epsilon", vars=["convergence_tolerance"], allow_new_vars=False))
+    leaves.append(fi.leaf("init_convergence_tolerance", lhs="convergence_tolerance", vars=[], allow_new_vars=False))
     return leaf.emit_coq(leaves, header="C01: k_calc (prep.cpp), init (Phreeqc.cpp), read_delta_h_only (read.cpp), molalities, sum_species (model.cpp), "
                          "log_activity, saturation_index (basicsubs.cpp)", extra=extra), leaves
 
